@@ -6,7 +6,8 @@
                   SITE <name> chk=<0|1> eff=<0|1> <script> spec=<v> mech=<v> allbut=<v> breaks_allbut=<0|1> breaks_mech=<0|1>
      run      - stdin: one script per line; for each script three lines
                   SPEC <outcome> <snap> ...   MECH <outcome> <snap> ...   FREE <outcome> <snap> ...
-                (FREE = no test at all: gives the pointer structure of every prefix), then INV <0|1>
+                (FREE = no test at all: gives the pointer structure of every prefix), then INV <0|1> <start snap>;
+                with argv.(2) = "<checked sites,>;<non-writing sites,>" a line OBS (that policy) precedes INV
    Script text:   <obj>;<obj>;... | <ptr>;<ptr>;... | <op>;<op>;...          (empty parts allowed)
      obj  := <s|a|t>,<const 0/1>,<member-const bits or ->,<v> <v> ...
      ptr  := <tgt>,<pc>,<cc>             tgt := n | o<i> | s<i>.<k>
@@ -153,6 +154,16 @@ let () =
           (s01 (mech_chk st)) (s01 (mech_eff st)) (script_s w) (verdict_s (verdict_of spec w)) (verdict_s (verdict_of mech w))
           (verdict_s (verdict_of (all_but st) w)) (s01 (breaks (all_but st) w)) (s01 (breaks mech w))) all_sites
   | _ ->
+      (* optional argv.(2) = "<site,site,..>;<site,..>": the sites at which a test was OBSERVED on the implementation and the
+         sites whose executor was observed not to write; adds a fourth line OBS per script *)
+      let obs =
+        if Array.length Sys.argv > 2 then begin
+          match split ';' Sys.argv.(2) with
+          | [c; ne] ->
+              let cs = split ',' c and nes = split ',' ne in
+              [("OBS", { chk = (fun st -> List.mem (site_s st) cs); eff = (fun st -> not (List.mem (site_s st) nes)) })]
+          | _ -> failwith "policy argument"
+        end else [] in
       (try
          while true do
            let line = input_line stdin in
@@ -163,7 +174,7 @@ let () =
                   let (_, oc) = run pol s ops in
                   print_string (name ^ " " ^ outcome_s oc);
                   List.iter (fun st -> print_string (" " ^ snap_s st)) (trace pol s ops);
-                  print_newline ()) [("SPEC", spec); ("MECH", mech); ("FREE", free)];
+                  print_newline ()) ([("SPEC", spec); ("MECH", mech); ("FREE", free)] @ obs);
                 print_endline ("INV " ^ s01 (inv_b s) ^ " " ^ snap_s s)
               with Failure m -> print_endline ("ERROR " ^ m))
            end
